@@ -38,11 +38,11 @@ def nontrivial(case):
 
 def run(ctx):
     quick = ctx["tier"] == "quick"
-    runs = [("seq", 400 if quick else 6000, 30, 70),
-            ("par", 700 if quick else 12000, 30, 71),
-            ("par", 30 if quick else 400, 64 if quick else 120, 72),
-            ("parperm", 8 if quick else 150, 14, 73),
-            ("big", 6 if quick else 80, 260, 74)]
+    runs = [("seq", 400 if quick else 4000, 30, 70),
+            ("par", 700 if quick else 8000, 30, 71),
+            ("par", 30 if quick else 250, 64 if quick else 120, 72),
+            ("parperm", 8 if quick else 100, 14, 73),
+            ("big", 6 if quick else 50, 260, 74)]
     rs = []
     for (mode, count, maxn, so) in runs:
         r = codec.run_simple("C07", ctx, "lab", ["--count", str(count), "--maxn", str(maxn), "--mode", mode],
